@@ -2,7 +2,7 @@
 (* Judges what the real encoders produced (harness/c07):
 
    {"ev":"pkt","pkt":"loginstart","v":760,"f":{...abstract field values...},"bytes":[...],"err":""}
-       bytes written by the real Packet.Encode for protocol v         -> bytes = Layout(pkt, v, f)
+       bytes written by the real Packet.Encode for protocol v         -> Matches(Fields(pkt, v, f), bytes)
    {"ev":"floordiv","a":-8,"b":8,"q":-1}   mathutil.FloorDiv(a, b)    -> q = FloorDiv(a, b)
 
    Every line is consumed; refused lines are printed (<<"BAD", line>>) and counted in TLC
@@ -16,7 +16,7 @@ SelfCheck(P) == IF P THEN TRUE ELSE PrintT(<<"SPECBAD", l>>) /\ TLCSet(3, TLCGet
 TPkt == /\ IsEv("pkt")
         /\ LET fs == Fields(Rec.pkt, Rec.v, Rec.f)
                bytes == ConcatMap(EncField, fs)             \* = Layout(Rec.pkt, Rec.v, Rec.f)
-           IN /\ Judge(Rec.err = "" /\ Rec.bytes = bytes)
+           IN /\ Judge(Rec.err = "" /\ Matches(fs, Rec.bytes))
               /\ SelfCheck(RoundTripOn(fs, bytes))
         /\ UNCHANGED sh
 
